@@ -17,6 +17,8 @@ tree; exit 1 is a false alarm, exit 2 a rule that pinned the text instead of the
   T10 rename-private-functions  every private function/method of the package `_f` -> `_f_rn`, all references included
   T11 name-tests   if <cond>: -> _c = <cond>; if _c:
   T12 de-morgan    a and b -> not (not a or not b), a or b -> not (not a and not b)  (branch tests)
+  T13 if-to-ifexp  if c: x = a else: x = b -> x = a if c else b (also for two returns)
+  T14 ifexp-to-if  the reverse
   T9 negate-eq     a != b -> not (a == b), a is not b -> not (a is b), a not in b -> not (a in b)
 
 Usage: tools/metamorph.py [T1 T3 ...] [--tier quick|thorough|both] [--props C01,C07] [--bisect]
@@ -322,6 +324,50 @@ class DeMorgan(ast.NodeTransformer):
         return node
 
 
+class IfToIfExp(ast.NodeTransformer):
+    """if c: x = a else: x = b  ->  x = a if c else b ;  if c: return a else: return b -> return a if c else b"""
+
+    def visit_If(self, node):
+        self.generic_visit(node)
+        if len(node.body) == 1 and len(node.orelse) == 1:
+            a, b = node.body[0], node.orelse[0]
+            if isinstance(a, ast.Assign) and isinstance(b, ast.Assign) and len(a.targets) == 1 and len(b.targets) == 1 \
+                    and isinstance(a.targets[0], ast.Name) and ast.dump(a.targets[0]) == ast.dump(b.targets[0]):
+                return ast.Assign(targets=a.targets, value=ast.IfExp(test=node.test, body=a.value, orelse=b.value), lineno=node.lineno)
+            if isinstance(a, ast.Return) and isinstance(b, ast.Return) and a.value is not None and b.value is not None:
+                return ast.Return(value=ast.IfExp(test=node.test, body=a.value, orelse=b.value))
+        return node
+
+
+class IfExpToIf(ast.NodeTransformer):
+    """x = a if c else b -> if c: x = a else: x = b ;  return a if c else b -> if c: return a else: return b"""
+
+    def _fix(self, body):
+        out = []
+        for st in body:
+            if isinstance(st, ast.Assign) and isinstance(st.value, ast.IfExp) and len(st.targets) == 1 and isinstance(st.targets[0], ast.Name):
+                v = st.value
+                out.append(ast.If(test=v.test, body=[ast.Assign(targets=st.targets, value=v.body, lineno=st.lineno)],
+                                  orelse=[ast.Assign(targets=st.targets, value=v.orelse, lineno=st.lineno)]))
+            elif isinstance(st, ast.Return) and isinstance(st.value, ast.IfExp):
+                v = st.value
+                out.append(ast.If(test=v.test, body=[ast.Return(value=v.body)], orelse=[ast.Return(value=v.orelse)]))
+            else:
+                out.append(st)
+        return out
+
+    def generic_visit(self, node):
+        super().generic_visit(node)
+        for fld in ("body", "orelse", "finalbody"):
+            b = getattr(node, fld, None)
+            if isinstance(b, list) and b and isinstance(b[0], ast.stmt):
+                setattr(node, fld, self._fix(b))
+        return node
+
+    def visit_Lambda(self, node):
+        return node
+
+
 TRANSFORMS = {
     "T0": ("reformat", None),
     "T1": ("swap-compare", SwapCompare),
@@ -336,6 +382,8 @@ TRANSFORMS = {
     "T10": ("rename-private-functions", RenamePrivateFuncs),
     "T11": ("name-tests", NameTests),
     "T12": ("de-morgan", DeMorgan),
+    "T13": ("if-to-ifexp", IfToIfExp),
+    "T14": ("ifexp-to-if", IfExpToIf),
 }
 
 
